@@ -53,11 +53,16 @@ func checkC17(c *Ctx) {
 			RequireFacts(c, p, "C17.guard", fn, AcceptNilErr, nil, []Req{
 				{"LenEq(claims,digests)", `^len\(p0\.ClaimedValues\) == len\(p1\)$|^len\(local:OpeningProof\.ClaimedValues\) == len\(p1\)$`},
 				{"LenEq(digests,points)", `^len\(p1\) == len\(p2\)$`},
-				{"gamma(points,digests,data)", `^noerr deriveChallenge\("gamma",p2,p1,NewTranscript\(p3,\["gamma","z"\]\),p5\)$`},
+				{"LenEq(claims[i],points[i])", `^len\((p0|local:OpeningProof)\.ClaimedValues\[\*\]\) == len\(p2\[\*\]\)$`},
+				{"gamma-derived", `^noerr deriveChallenge\("gamma",p2,p1,NewTranscript\(p3,\["gamma","z"\]\),`},
 				{"z(W)", `^noerr deriveChallenge\("z",nil,\[(p0|local:OpeningProof)\.W\],NewTranscript\(p3,\["gamma","z"\]\),nil\)$`},
 				{"pairing", `^ok PairingCheckFixedQ\(.*,(p4|local:VerifyingKey)\.Lines\)#0$`},
 				{"pairing-noerr", `^noerr PairingCheckFixedQ\(.*,(p4|local:VerifyingKey)\.Lines\)$`},
 			})
+		}
+		if fn := p.Func(pk, "", "BatchVerify"); fn != nil {
+			// gamma depends on the points, the commitments, the claimed values and the extra data
+			checkInfluenceCall(c, p, "C17.bind", fn, "deriveChallenge", []string{"p0.ClaimedValues", "p1", "p2", "p5"})
 		}
 		if fn := need(pk, "", "deriveChallenge"); fn != nil {
 			RequireFacts(c, p, "C17.bind", fn, AcceptNilErr, nil, []Req{
@@ -195,6 +200,28 @@ func checkC17(c *Ctx) {
 				{"pairing-noerr", `^noerr PairingCheck\(.*\)$`},
 			})
 		}
+	}
+	// ---- checks that were prepared and dropped
+	c.Rule("C17.dead", "DEAD-CHECK-VALUE: in a verifier (Verify*, BatchVerify*) a local that is only ever the destination of arithmetic on proof data (at least two steps) is afterwards compared, passed on or returned; a folded commitment that is computed and dropped means the corresponding part of the proof is bound to nothing", 40)
+	{
+		n := 0
+		var hits []Finding
+		for _, fn := range libFuncs(p) {
+			if fn.Parent() != nil || !regexp.MustCompile(`^(Batch)?Verify`).MatchString(fn.Name()) {
+				continue
+			}
+			k, h := deadAccumulators(p, fn)
+			n += k
+			for _, x := range h {
+				if strings.Contains(x.Msg, "(1 arithmetic steps)") {
+					continue
+				}
+				hits = append(hits, x)
+			}
+		}
+		c.Instance("C17.dead", n)
+		reportFindings(c, p, "C17.dead", nil, hits, "")
+		c.Ob("C17.dead", "-", "-", "verifier-locals-analysed", "-", n >= 40, "fewer computed locals in verifiers than on the reference tree")
 	}
 	// ---- coordinate coverage of extension-field inputs in the verifier packages
 	c.Rule("C17.coverage", "COORDINATE-COVERAGE: a predicate of a verifier package (result bool or error) that reads an extension-field input coordinate by coordinate reads every base-field coordinate of it; a coordinate that is never read is never checked (e.g. the Reed-Solomon test applied to three of the four coordinates of E4)", 2)
